@@ -250,6 +250,37 @@ Fixpoint sel_vars (s : sel) : list string :=
   | SSpread _ ds _ _ ss => dv ds ++ flat_map sel_vars ss
   end.
 
+(* C15: the names and response keys of the nodes that the GraphQL rule keeps (no @skip(true), no @include(false)) *)
+Fixpoint included_names (vars : env) (s : sel) {struct s} : list string :=
+  match s with
+  | SField _ n _ ds _ oss => if dirs_allow vars ds then n :: match oss with Some ss => flat_map (included_names vars) ss | None => [] end else []
+  | SInline _ ds _ ss | SSpread _ ds _ _ ss => if dirs_allow vars ds then flat_map (included_names vars) ss else []
+  end.
+Fixpoint included_keys (vars : env) (s : sel) {struct s} : list string :=
+  match s with
+  | SField al _ _ ds _ oss => if dirs_allow vars ds then al :: match oss with Some ss => flat_map (included_keys vars) ss | None => [] end else []
+  | SInline _ ds _ ss | SSpread _ ds _ _ ss => if dirs_allow vars ds then flat_map (included_keys vars) ss else []
+  end.
+(* field names a downstream document selects, leaving out the gateway's own plumbing (aliases _bramble...) *)
+Fixpoint requested_names (s : sel) {struct s} : list string :=
+  match s with
+  | SField al n _ _ _ oss => (if String.prefix "_bramble" al then [] else [n]) ++ match oss with Some ss => flat_map requested_names ss | None => [] end
+  | SInline _ _ _ ss | SSpread _ _ _ _ ss => flat_map requested_names ss
+  end.
+Fixpoint leaf_keys (s : sel) {struct s} : list string :=
+  match s with
+  | SField al _ _ _ _ None => [al]
+  | SField _ _ _ _ _ (Some ss) => flat_map leaf_keys ss
+  | SInline _ _ _ ss | SSpread _ _ _ _ ss => flat_map leaf_keys ss
+  end.
+(* keys of the response objects; the value of a leaf field (a custom scalar may be an object) is not descended into *)
+Fixpoint json_keys (leaves : list string) (j : json) : list string :=
+  match j with
+  | JObj kvs => flat_map (fun kv => fst kv :: if mem (fst kv) leaves then [] else json_keys leaves (snd kv)) kvs
+  | JArr l => flat_map (json_keys leaves) l
+  | _ => []
+  end.
+
 (* auth.go:172-206: the permission-filtered view lacks a type the (permitted part of the) query refers to *)
 Fixpoint types_used (s : sel) : list string :=
   match s with
@@ -385,6 +416,12 @@ Definition check_e2e_case (c : e2e_case) : list (string * bool) :=
             else true
           else true
         | None => true end);
+    ("prop.c15.skipped_not_requested",
+       let inc := flat_map (included_names (ec_vars c)) (o_sel (ec_op c)) in
+       forallb (fun r => forallb (fun n => mem n inc) (flat_map requested_names (or_sel r))) (obs_requests c));
+    ("prop.c15.skipped_not_in_response",
+       let inc := flat_map (included_keys (ec_vars c)) (o_sel (ec_op c)) in
+       match obs_data c with Some d => forallb (fun k => mem k inc) (json_keys (flat_map leaf_keys (o_sel (ec_op c))) d) | None => true end);
     ("prop.c15.directives_not_forwarded", forallb (fun r => negb (existsb has_directive (or_doc r))) (obs_requests c));
     ("prop.c15.vars_exact", forallb (fun r => seteq_str (or_varnames r) (dedupe_str (flat_map sel_vars (or_doc r))) &&
                                               seteq_str (or_declared r) (or_varnames r)) (obs_requests c));
